@@ -73,6 +73,16 @@ func (self *Interpreter) callFunc(span errors.Span, val value.Value, args []ast.
 	case value.ClosureValueKind:
 		closure := val.(value.ValueClosure)
 
+		// the arguments are evaluated in the scopes of the caller, before the closure's scopes are installed
+		argsOut := make(map[string]*value.Value)
+		for _, arg := range args {
+			argVal, i := self.expression(arg.Expression)
+			if i != nil {
+				return nil, i
+			}
+			argsOut[arg.Name] = argVal
+		}
+
 		// push a scope into the closure
 		closure.Scopes = append(closure.Scopes, make(map[string]*value.Value))
 		self.callStackSize++
@@ -95,13 +105,8 @@ func (self *Interpreter) callFunc(span errors.Span, val value.Value, args []ast.
 			self.currentModule.scopes = scopesPrev
 		}()
 
-		for _, arg := range args {
-			argVal, i := self.expression(arg.Expression)
-			if i != nil {
-				return nil, i
-			}
-
-			closure.Scopes[len(closure.Scopes)-1][arg.Name] = argVal
+		for name, argVal := range argsOut {
+			closure.Scopes[len(closure.Scopes)-1][name] = argVal
 		}
 
 		val, i := self.block(closure.Block, false)
